@@ -1,5 +1,6 @@
 import OPM.Model.Merge
 import OPM.Lemmas.Interp
+import OPM.Lemmas.MergeHist
 /-!
 # C01 Live method edits never re-run or lose run progress  (and the edit half of C14)
 
@@ -178,6 +179,209 @@ theorem C01_counterexample : ¬ C01_full := by
   revert this
   decide +kernel
 
+
+/-! ## non-vacuity of the `_partial` theorems, and what "without affecting the run" means
+
+`wBad` changes the text of line 1 (`Mark: a`, completed after five ticks): the hypotheses of both
+`_partial` theorems hold of the concrete state `wMM`. -/
+
+def wBad : Method := ⟨#[
+  { kind := .program, parent := none, children := [1, 2, 3], threshold := none, keyPath := [0] },
+  { kind := .mark "z", parent := some 0, children := [], threshold := none, keyPath := [0, 1] },
+  { kind := .wait 1, parent := some 0, children := [], threshold := none, keyPath := [0, 2] },
+  { kind := .mark "b", parent := some 0, children := [], threshold := none, keyPath := [0, 3] }],
+  #[0, 1, 2, 3], #["P", "Mark|z", "Wait|1s", "Mark|b"],
+  [(1, "Mark: z"), (2, "Wait: 1s"), (3, "Mark: b")]⟩
+
+example : (edit wMM wBad).2 = .rejected ∧ (edit wMM wBad).1 = wMM :=
+  ⟨by decide +kernel, C01_partial_rejected_edit_changes_nothing wMM wBad (by decide +kernel)⟩
+
+example : (edit wMM wBad).2 = .rejected :=
+  C01_partial_started_line_edit_rejected wMM wBad 1 "Mark: a" "Mark: z"
+    (by decide +kernel) (by decide +kernel) (by decide +kernel) (by decide +kernel) (by decide +kernel)
+    (by decide +kernel)
+
+/-- "…is rejected without affecting the run": after a rejected edit every continuation of the run
+    (ticks, command completions, cancel / force requests, injections, further edits) is the
+    continuation of the run without the edit. -/
+theorem C01_partial_rejected_edit_future_unchanged (mm : MM) (new : Method)
+    (h : (edit mm new).2 = .rejected) (ops : List HOp) :
+    runH (edit mm new).1 ops = runH mm ops :=
+  rejected_edit_future_unchanged mm new h ops
+
+example : (runH (edit wMM wBad).1 [.tick ⟨5/8, 5/8, 0, []⟩, .edit wNew]).2 = [.merged] ∧
+    runH (edit wMM wBad).1 [.tick ⟨5/8, 5/8, 0, []⟩, .edit wNew] = runH wMM [.tick ⟨5/8, 5/8, 0, []⟩, .edit wNew] :=
+  ⟨by decide +kernel, C01_partial_rejected_edit_future_unchanged wMM wBad (by decide +kernel) _⟩
+
+/-! ## as-is behaviour for every state and every history
+
+(`OPM.Lemmas.MergeHist`.)  These are *not* what the property asks for — they say exactly how the code
+falls short of it, for all states, so that the oracle's known-finding keys have a theorem behind
+them. -/
+
+/-- Every accepted edit — merged or set, first or hundredth, whatever was running — installs the new
+    method with an interpreter in which no node has any progress (`PristineRt`: not started, not
+    completed, child index 0, no wait start, no run counts …), whose main generator stands in front of
+    the program node and whose only other generators are brand-new ones; only the tags (Mark, Block,
+    Base) are kept. -/
+theorem every_accepted_edit_restarts (mm : MM) (new : Method) (h : (edit mm new).2 ≠ .rejected) :
+    (edit mm new).1.m = new ∧ Restarted mm.st (edit mm new).1.st :=
+  accepted_edit_restarts mm new h
+
+example : (edit wMM wNew).2 ≠ .rejected := by decide +kernel
+
+/-- …after any history: ticks, requests, injections and earlier edits in any number and order. -/
+theorem accepted_edit_restarts_after_any_history (mm : MM) (ops : List HOp) (new : Method)
+    (h : (edit (runH mm ops).1 new).2 ≠ .rejected) :
+    (runH mm (ops ++ [.edit new])).1.m = new ∧
+    Restarted (runH mm ops).1.st (runH mm (ops ++ [.edit new])).1.st :=
+  history_ending_in_accepted_edit_restarts mm ops new h
+
+/-- Simulation, as the code is: when no Watch / Alarm / injected code and no macro is registered, the
+    state after a merge *is* a new interpreter over the new method (tags kept) — the run continues as
+    a run of the edited method from its first line, not from where it was. -/
+theorem merge_is_a_fresh_start (mm : MM) (new : Method)
+    (hi : mm.st.imap = []) (hm : mm.st.macros = []) (h : (edit mm new).2 = .merged) :
+    (edit mm new).1.st = freshInterp mm.st new.prog :=
+  merge_without_registrations_is_fresh_start mm new hi hm h
+
+example : wMM.st.imap = [] ∧ wMM.st.macros = [] ∧ (edit wMM wNew).2 = .merged := by decide +kernel
+
+/-- **Successive edits.** After one merged edit the method manager looks at a state-less copy of the
+    program.  Through any number of ticks, requests and injections that stays so; hence the next edit
+    — any edit, also one that rewrites lines the interpreter has started — goes through `set_method`:
+    not validated, never rejected. -/
+theorem second_edit_not_validated (mm : MM) (new : Method) (h : (edit mm new).2 = .merged)
+    (ops : List HOp) (hops : ∀ o ∈ ops, o.isEdit = false) (new' : Method) :
+    (edit (runH (edit mm new).1 ops).1 new').2 = .set :=
+  edit_after_merge_is_set mm new h ops hops new'
+
+/-- **Any number of edits.** In a burst of edits everything after the first accepted one is `set`. -/
+theorem burst_of_edits_all_set (mm : MM) (new : Method) (h : (edit mm new).2 ≠ .rejected)
+    (news : List Method) : ∀ r ∈ (runEdits (edit mm new).1 news).2, r = .set :=
+  edits_after_accepted_all_set mm new h news
+
+example : (runEdits (edit wMM wNew).1 [wBad, wNew, wBad]).2 = [.set, .set, .set] := by decide +kernel
+
+/-- **Edits while injected code is running.** A `set` edit (every edit after the first) drops all
+    interrupts — Watches, Alarms and injected code alike. -/
+theorem set_edit_forgets_interrupts (mm : MM) (new : Method) (h : (edit mm new).2 = .set) :
+    (edit mm new).1.st.imap = [] ∧ (edit mm new).1.st.macros = [] ∧ (edit mm new).1.st.gens = [mainGen] :=
+  set_edit_drops_all_interrupts mm new h
+
+/-- After any accepted edit every generator is new and stands in front of its node: no generator of
+    the old interpreter — in particular none that was half-way through injected code — survives. -/
+theorem accepted_edit_keeps_no_generator (mm : MM) (new : Method) (h : (edit mm new).2 ≠ .rejected) :
+    ∀ g ∈ (edit mm new).1.st.gens, g.stack = [.wrapEnter g.node] :=
+  merged_gens mm new h
+
+/-! ### deleting a started line
+
+The property: "an edit that changes a started line is rejected".  Removing the line is the most
+drastic change; `_validate_liveedit_method` only looks at the lines that are still there. -/
+
+/-- An edit that removes a protected (started / executed) line is rejected. -/
+def C01_full_delete : Prop :=
+  ∀ (mm : MM) (new : Method) (id : Nat), mm.mmShared = true → (getRt mm.st 0).started = true →
+    id ∈ protectedIds mm → id ∉ new.content.map (·.1) → (edit mm new).2 = .rejected
+
+/-- `wNew` without line 2 (`Wait: 1s`, which is running after five ticks). -/
+def wDel : Method := ⟨#[
+  { kind := .program, parent := none, children := [1, 2, 3], threshold := none, keyPath := [0] },
+  { kind := .mark "a", parent := some 0, children := [], threshold := none, keyPath := [0, 1] },
+  { kind := .mark "b", parent := some 0, children := [], threshold := none, keyPath := [0, 2] },
+  { kind := .mark "c", parent := some 0, children := [], threshold := none, keyPath := [0, 3] }],
+  #[0, 1, 3, 4], #["P", "Mark|a", "Mark|b", "Mark|c"],
+  [(1, "Mark: a"), (3, "Mark: b"), (4, "Mark: c")]⟩
+
+theorem C01_witness_deleted_line :
+    ((wRun 5).rt 2).started = true ∧ ((wRun 5).rt 2).completed = false ∧ 2 ∈ protectedIds wMM ∧
+    (edit wMM wDel).2 = .merged := by
+  decide +kernel
+
+theorem C01_delete_counterexample : ¬ C01_full_delete := by
+  intro h
+  have := h wMM wDel 2 (by decide +kernel) (by decide +kernel) (by decide +kernel) (by decide +kernel)
+  revert this
+  decide +kernel
+
+/-- As-is, for every state: an edit none of whose remaining lines is protected (all started lines
+    removed, the others changed at will) passes the line check; with no started macro it is accepted. -/
+theorem edit_keeping_no_started_line_accepted (mm : MM) (new : Method)
+    (hshared : mm.mmShared = true) (hroot : (getRt mm.st 0).started = true)
+    (hlines : ∀ p ∈ new.content, p.1 ∉ protectedIds mm)
+    (hmac : ∀ e ∈ mm.st.macros, (getRt mm.st e.2).runStarted = 0) :
+    (edit mm new).2 = .merged := by
+  have hv : validate mm new = true := by
+    unfold validate
+    simp only [Bool.and_eq_true, List.all_eq_true]
+    constructor
+    · intro p hp
+      have := hlines p hp
+      simp [this]
+    · intro e he
+      have h0 := hmac e (by simpa [hshared] using he)
+      simp [h0]
+  rcases edit_cases mm new with ⟨_, _, e⟩ | ⟨_, h2, _⟩ | ⟨h1, _⟩
+  · rw [e]
+  · rw [hv] at h2; cases h2
+  · simp [hshared, hroot] at h1
+
+example : (∀ p ∈ ([] : List (Nat × String)), p.1 ∉ protectedIds wMM) ∧
+    (∀ e ∈ wMM.st.macros, (getRt wMM.st e.2).runStarted = 0) := by
+  constructor
+  · intro p hp; cases hp
+  · decide +kernel
+
+/-! ### witness: the second edit rewrites a completed line and is accepted
+
+`wMM` --`wNew` (merged)--> four ticks (`Mark: a` has run a second time) --`wBad'`--> `set`:
+`wBad'` is `wNew` with line 1 rewritten to `Mark: z`. -/
+
+def wBad' : Method := ⟨#[
+  { kind := .program, parent := none, children := [1, 2, 3, 4], threshold := none, keyPath := [0] },
+  { kind := .mark "z", parent := some 0, children := [], threshold := none, keyPath := [0, 1] },
+  { kind := .wait 1, parent := some 0, children := [], threshold := none, keyPath := [0, 2] },
+  { kind := .mark "b", parent := some 0, children := [], threshold := none, keyPath := [0, 3] },
+  { kind := .mark "c", parent := some 0, children := [], threshold := none, keyPath := [0, 4] }],
+  #[0, 1, 2, 3, 4], #["P", "Mark|z", "Wait|1s", "Mark|b", "Mark|c"],
+  [(1, "Mark: z"), (2, "Wait: 1s"), (3, "Mark: b"), (4, "Mark: c")]⟩
+
+def wTicks (from_ n : Nat) : List HOp :=
+  (List.range n).map (fun i => .tick ⟨(from_ + i : Nat) / 8, (from_ + i : Nat) / 8, 0, []⟩)
+
+theorem C01_witness_second_edit :
+    -- after the first edit and four ticks line 1 has completed again …
+    ((runH (edit wMM wNew).1 (wTicks 5 4)).1.st.rt 1).completed = true ∧
+    -- … the edit that rewrites it is accepted without validation …
+    (runH wMM ([.edit wNew] ++ wTicks 5 4 ++ [.edit wBad'])).2 = [.merged, .set] ∧
+    -- … and the run starts over once more with the rewritten line
+    (runH wMM ([.edit wNew] ++ wTicks 5 4 ++ [.edit wBad'] ++ wTicks 9 20)).1.st.marks = ["a", "a", "z", "b", "c"] := by
+  decide +kernel
+
+/-! ### witness: an edit while injected code is running
+
+Method `Mark: a / Wait: 1s / Mark: b`; after three ticks `Wait: 0.5s / Mark: inj` is injected
+(nodes 4–6, outside the program); two ticks later `Mark: c` is appended.  Without the edit the run
+sets `a, inj, b`; with it the injected code is gone and `a` is set twice. -/
+
+def iExtra : Array Node := #[
+  { kind := .injected, parent := none, children := [5, 6], threshold := none, keyPath := [9], inProgram := false },
+  { kind := .wait (1/2), parent := some 4, children := [], threshold := none, keyPath := [9, 1], inProgram := false },
+  { kind := .mark "inj", parent := some 4, children := [], threshold := none, keyPath := [9, 2], inProgram := false }]
+
+def iStart : MM := { m := wOld, st := init wProg }
+
+def iHist : List HOp :=
+  wTicks 0 3 ++ [.inject iExtra #[100, 101, 102] #["Inj", "Wait|0.5s", "Mark|inj"] 4] ++ wTicks 3 2
+
+theorem C01_witness_injected :
+    (runH iStart (iHist ++ wTicks 5 30)).1.st.marks = ["a", "inj", "b"] ∧
+    (runH iStart iHist).1.st.imap.map (·.1) = [4] ∧
+    (runH iStart (iHist ++ [.edit wNew])).2 = [.merged] ∧
+    (runH iStart (iHist ++ [.edit wNew])).1.st.imap = [] ∧
+    (runH iStart (iHist ++ [.edit wNew] ++ wTicks 5 30)).1.st.marks = ["a", "a", "b", "c"] := by
+  decide +kernel
 
 /-! ## second witness: a live edit while a nested Watch is registered stalls the enclosing Watch
 
